@@ -167,7 +167,11 @@ def run_one(rng, a, o, idx_map, mode, ctx, st):
     what = "extend(mode=%s, map=%s)" % (mode, idx_map)
     try:
         if mode == "default":
-            b.extend(o, structure_index_map=dict(idx_map))
+            if (len(a) + len(o)) % 3 == 0:
+                b.extend(o, structure_index_map=dict(idx_map), verbose=True)          # the diagnostic output switched on: same result
+                st.count("extensions_with_verbose_output")
+            else:
+                b.extend(o, structure_index_map=dict(idx_map))
             pred = AM.extend(ma, mo, idmap, retag=_retag)
             _check(b, pred, ctx, what, a, o, idx_map, st)
         elif mode == "shared":
@@ -295,6 +299,8 @@ def run_case(case, ctx):
 
 def requirements(stats, tier):
     need = []
+    if stats.get("extensions_with_verbose_output") < (50 if tier == "quick" else 5000) or stats.get("extensions_with_positional_arguments") < (50 if tier == "quick" else 5000):
+        need.append("call forms: %d extensions with verbose output, %d with positional arguments" % (stats.get("extensions_with_verbose_output"), stats.get("extensions_with_positional_arguments")))
     if stats.get("extensions_checked") < (1500 if tier == "quick" else 150000):
         need.append("too few extensions observed: %d" % stats.get("extensions_checked"))
     for m in ("default", "shared", "repeat"):
